@@ -161,6 +161,8 @@ class Check(CheckBase):
                           'settings': gen.gen_settings(rr, encrypted=True, chunker=(8, 64))})
         for i in range(4 if quick else 96):
             cases.append({'kind': 'proc', 'seed': i, 'which': i})
+        for i in range(4 if quick else 60):
+            cases.insert(i, {'kind': 'cli', 'seed': random.Random(f'C17/{self.seed}/cli/{i}').randrange(1 << 30), 'timeout': 900})
         return cases
 
     def worker_setup(self):
@@ -189,6 +191,9 @@ class Check(CheckBase):
                 return self._init(case, scratch)
             if case['kind'] == 'chain':
                 return self._chain(case, scratch)
+            if case['kind'] == 'cli':
+                from .. import cliflow
+                return cliflow.run_case(case['seed'], 'keys')
             return self._proc(case, scratch)
         finally:
             shutil.rmtree(scratch, ignore_errors=True)
